@@ -1583,7 +1583,10 @@ func (t *Tokenizer) readPunctuation() (models.Token, error) {
 		if t.pos.Index < len(t.input) {
 			nextR, _ := utf8.DecodeRune(t.input[t.pos.Index:])
 			if nextR == '$' || isIdentifierStart(nextR) {
-				// Try to read the opening tag
+				// Try to read the opening tag. If no complete $tag$ opener follows, the
+				// token is the lone "$" and the characters looked at while searching
+				// for the tag are not consumed.
+				afterDollar := t.pos
 				tagStart := t.pos.Index
 				if nextR == '$' {
 					// $$ case - empty tag
@@ -1596,6 +1599,7 @@ func (t *Tokenizer) readPunctuation() (models.Token, error) {
 						}
 						if !isIdentifierChar(cr) {
 							// Not a valid tag, treat as standalone $
+							t.pos = afterDollar
 							return models.Token{Type: models.TokenTypePlaceholder, Value: "$"}, nil
 						}
 						t.pos.AdvanceRune(cr, cs)
@@ -1603,10 +1607,12 @@ func (t *Tokenizer) readPunctuation() (models.Token, error) {
 				}
 				// Check for closing $ of the tag
 				if t.pos.Index >= len(t.input) {
+					t.pos = afterDollar
 					return models.Token{Type: models.TokenTypePlaceholder, Value: "$"}, nil
 				}
 				closingR, closingSize := utf8.DecodeRune(t.input[t.pos.Index:])
 				if closingR != '$' {
+					t.pos = afterDollar
 					return models.Token{Type: models.TokenTypePlaceholder, Value: "$"}, nil
 				}
 				tag := string(t.input[tagStart:t.pos.Index])
